@@ -1,5 +1,4 @@
 # -*- coding: utf-8 -*-
-import fnmatch
 from . import dispatcher
 from . import error
 from . import utils
@@ -48,7 +47,7 @@ def MATCH(lookup_value, lookup_array, match_type=1):
                     index_value = lookup_array[idx]
         elif match_type == 0:
             if isinstance(lookup_value, string_types):
-                if isinstance(lookup_array[idx], string_types) and fnmatch.fnmatch(lookup_array[idx].lower(), lookup_value.lower()):
+                if isinstance(lookup_array[idx], string_types) and utils.wildcard_match(lookup_array[idx].lower(), lookup_value.lower()):
                     return idx + 1
             else:
                 if lookup_array[idx] == lookup_value:
